@@ -13,6 +13,7 @@
 //!     recurrence is a plain violation; one named finding (cb/mb are allocation sizes,
 //!     C14-jacoco-branch-vector-alloc) observed in a child process and, as the capacity-overflow
 //!     panic of cb >= 2^63, in-process (corpus witness `big`).
+mod bytes;
 mod gen;
 mod mal;
 mod ties;
@@ -607,6 +608,9 @@ pub fn run(rep: &mut Report) {
     check_alloc(rep, &alloc_witness, harvest(alloc_child));
     rep.notes.push("streams: fixtures of /repo/test/jacoco; well-formed trees (oracle sem + model tie); malformed trees (model tie; outcome kinds counted under malformed.*); truncation inside a package (in-process under the watchdog, expected `err Parse` since /repo 34e25d5); unescape / parsenum / isjacoco helper ties; corpus witnesses of the former EOF hang and the named finding C14-jacoco-branch-vector-alloc checked once per run in child processes".into());
     rep.notes.push("every event list sent to the model is checked against quick-xml's own tokenizer on the same bytes (harness.serialiser_mismatch counts differences: none expected)".into());
+    if !no_model {
+        bytes::run(rep);
+    }
 }
 
 fn check_alloc(rep: &mut Report, xml: &[u8], out: String) {
@@ -696,6 +700,7 @@ pub fn replay(rep: &mut Report, case: &Value) {
                 rep.fail("oracle", None, format!("EOF inside an element: expected 'err Parse', observed '{}' (limit {} ms)", out, t), case.clone());
             }
         }
+        "jacoco.bytes" => bytes::replay(rep, case),
         "finding.c10" => {
             // a recorded witness of a named finding: present as long as the parser answers the same
             let xml = unhex(&s("xml_hex"));
